@@ -46,4 +46,17 @@ static int v_memcmp(const void *a, const void *b, size_t n)
   __CPROVER_assert(n == 0 || __CPROVER_r_ok(b, n), "memcmp second operand readable for n bytes");
   return nondet_int();
 }
+/* exact small-size models for bounded (B-tier) harnesses: plain byte loops, unwound by --unwind */
+static void *x_memmove(void *dst, const void *src, size_t n)
+{
+  unsigned char tmp[64]; __CPROVER_assert(n <= 64, "bounded harness: memmove size within the stated bound");
+  for (size_t i = 0; i < n; i++) tmp[i] = ((const unsigned char *)src)[i];
+  for (size_t i = 0; i < n; i++) ((unsigned char *)dst)[i] = tmp[i];
+  return dst;
+}
+static void *x_memset(void *dst, int c, size_t n)
+{
+  for (size_t i = 0; i < n; i++) ((unsigned char *)dst)[i] = (unsigned char)c;
+  return dst;
+}
 #endif
